@@ -80,17 +80,13 @@ void ares_destroy(ares_channel_t *channel)
   ares_channel_lock(channel);
 
   /* Destroy all queries */
-  node = ares_llist_node_first(channel->all_queries);
-  while (node != NULL) {
-    ares_llist_node_t *next  = ares_llist_node_next(node);
-    ares_query_t      *query = ares_llist_node_claim(node);
+  while ((node = ares_llist_node_first(channel->all_queries)) != NULL) {
+    ares_query_t *query = ares_llist_node_claim(node);
 
     query->node_all_queries = NULL;
     ares_detach_query(query);
     query->callback(query->arg, ARES_EDESTRUCTION, 0, NULL);
     ares_free_query(query);
-
-    node = next;
   }
 
   ares_queue_notify_empty(channel);
